@@ -594,7 +594,11 @@ class Run:
             # 32 bytes; a device announcing less than 32 (outside the protocol, generated for the fault-free half of the
             # quantifier) then sees larger packets: not judged
             fell_back = core.max_packet < 32 and s.mb.max_packet_size == 32 and getattr(self, "any_fault_so_far", False)
-            if not fell_back:
+            if not fell_back and getattr(s, "tainted", False) and s.transport == "hid":
+                # a later call on a USB-HID session that met a fault earlier: a report left over from the failed exchange
+                # answered the host's packet-size query (recorded finding, one class for every consequence)
+                self.violation("later-call-on-hid", "stale-report-answers-later-call", f"{where}: a data packet of {core.max_payload_seen} bytes exceeds the device's {core.max_packet}; the host uses {s.mb.max_packet_size} on a USB-HID session that met a fault earlier")
+            elif not fell_back:
                 self.violation("packet-too-large", spec.name, f"{where}: a data packet of {core.max_payload_seen} bytes exceeds the negotiated {core.max_packet}")
             else:
                 self.probe("fallback_to_default_packet_size_on_small_device")
